@@ -52,12 +52,18 @@ class Inst:
         self.decl = rec['decl']
         self.cfg = rec['cfg']
         self.feats = dict(rec['cfg']['features']) if rec['cfg'] else {}
-        nested = 'MOD' in (self.decl['vis'] or '') or self.decl.get('context') == 'fn'
-        self.mod = '%s::%s' % (crate.name, self.id) + ('::inner' if nested else '')
         self.enum_name = self.decl.get('enum_name', 'E')
+        top = '%s::%s' % (crate.name, self.id)
+        in_body = self.decl.get('context') in D.BODY_CONTEXTS
+        if in_body:
+            # the enum is an item of a body (fn, block, anonymous const, method, closure): its path is whatever rustc calls that body
+            cands = [k for k in crate.adts if k.startswith(top + '::') and k.endswith('::' + self.enum_name)]
+            self.mod = cands[0][:-len(self.enum_name) - 2] if len(cands) == 1 else top + '::inner'
+        else:
+            self.mod = top + ('::inner' if 'MOD' in (self.decl['vis'] or '') else '')
         self.enum_path = self.mod + '::' + self.enum_name
-        # the module that private items are private to (a function body is not a module)
-        self.priv_mod = '%s::%s' % (crate.name, self.id) if self.decl.get('context') == 'fn' else self.mod
+        # the module that private items are private to (a body is not a module)
+        self.priv_mod = top if in_body else self.mod
         sl = crate.by_module(self.mod)
         self.items = sl['items']
         self.adts = sl['adts']
